@@ -1,5 +1,10 @@
 use crate::{ansi::parse_next_number, EngineResult, Palette, ParserError, Position, Rectangle, Size};
 
+/// Sixel images are clipped to this size in pixels and use this many color registers.
+const MAX_SIXEL_WIDTH: i32 = 2048;
+const MAX_SIXEL_HEIGHT: i32 = 2048;
+const MAX_SIXEL_COLORS: u32 = 256;
+
 #[derive(Clone, Debug, Copy)]
 pub enum SixelState {
     Read,
@@ -56,17 +61,19 @@ impl SixelParser {
             self.parse_char(ch)?;
         }
         self.parse_char('#')?;
-        let mut picture_data = Vec::new();
-        for y in 0..self.height() {
-            let line = &self.picture_data[y as usize];
-            picture_data.extend(line);
+        // the image is a rectangle: all rows are as wide as the widest one
+        let line_len = self.picture_data.iter().map(Vec::len).max().unwrap_or(0);
+        let mut picture_data = Vec::with_capacity(line_len * self.picture_data.len());
+        for line in &mut self.picture_data {
+            line.resize(line_len, 0);
+            picture_data.extend_from_slice(line);
         }
         Ok(Sixel {
             position: self.pos,
             vertical_scale: self.vertical_scale,
             horizontal_scale: self.horizontal_scale,
             picture_data,
-            size: (self.width(), self.height()).into(),
+            size: ((line_len / 4) as i32, self.height()).into(),
         })
     }
 
@@ -98,7 +105,7 @@ impl SixelParser {
                     self.parsed_numbers.push(0);
                 } else {
                     if let Some(color) = self.parsed_numbers.first() {
-                        self.current_sixel_color = *color as u32;
+                        self.current_sixel_color = *color as u32 % MAX_SIXEL_COLORS;
                     }
                     if self.parsed_numbers.len() > 1 {
                         if self.parsed_numbers.len() != 5 {
@@ -107,11 +114,12 @@ impl SixelParser {
 
                         match self.parsed_numbers.get(1) {
                             Some(2) => {
+                                // components are percentages
                                 self.current_sixel_palette.set_color_rgb(
                                     self.current_sixel_color,
-                                    (self.parsed_numbers[2] * 255 / 100) as u8,
-                                    (self.parsed_numbers[3] * 255 / 100) as u8,
-                                    (self.parsed_numbers[4] * 255 / 100) as u8,
+                                    (self.parsed_numbers[2].min(100) * 255 / 100) as u8,
+                                    (self.parsed_numbers[3].min(100) * 255 / 100) as u8,
+                                    (self.parsed_numbers[4].min(100) * 255 / 100) as u8,
                                 );
                             }
                             Some(1) => {
@@ -149,14 +157,14 @@ impl SixelParser {
                     self.vertical_scale = self.parsed_numbers[0];
                     self.horizontal_scale = self.parsed_numbers[1];
                     if self.parsed_numbers.len() == 3 {
-                        let height = self.parsed_numbers[2];
+                        let height = self.parsed_numbers[2].min(MAX_SIXEL_HEIGHT);
                         self.picture_data.resize(height as usize, Vec::new());
                         self.height_set = true;
                     }
 
                     if self.parsed_numbers.len() == 4 {
-                        let height = self.parsed_numbers[3];
-                        let width = self.parsed_numbers[2];
+                        let height = self.parsed_numbers[3].min(MAX_SIXEL_HEIGHT);
+                        let width = self.parsed_numbers[2].min(MAX_SIXEL_WIDTH);
                         self.picture_data.resize(height as usize, vec![0; 4 * width as usize]);
                         self.height_set = true;
                     }
@@ -173,7 +181,8 @@ impl SixelParser {
                     self.parsed_numbers.push(parse_next_number(d, ch as u8));
                 } else {
                     if let Some(i) = self.parsed_numbers.first() {
-                        for _ in 0..*i {
+                        // everything right of the maximum width is clipped anyway
+                        for _ in 0..(*i).min(MAX_SIXEL_WIDTH) {
                             self.parse_sixel_data(ch)?;
                         }
                     } else {
@@ -201,6 +210,10 @@ impl SixelParser {
             .clone();
         let x_pos = self.sixel_cursor.x;
         let y_pos = self.sixel_cursor.y * 6;
+        if x_pos >= MAX_SIXEL_WIDTH || y_pos >= MAX_SIXEL_HEIGHT {
+            // clipped
+            return Ok(());
+        }
 
         let mut last_line = y_pos + 6;
         if self.height_set && last_line > self.height() {
@@ -248,7 +261,9 @@ impl SixelParser {
             }
             '-' => {
                 self.sixel_cursor.x = 0;
-                self.sixel_cursor.y += 1;
+                if self.sixel_cursor.y * 6 < MAX_SIXEL_HEIGHT {
+                    self.sixel_cursor.y += 1;
+                }
             }
             '$' => {
                 self.sixel_cursor.x = 0;
